@@ -10,7 +10,7 @@ use slotted_egraphs::*;
 use std::collections::HashMap;
 
 /// (name, lhs, rhs, explicit side conditions (slot, var)) — must equal `Rules.pool` in the Lean model
-pub const POOL: [(&str, &str, &str, &[(&str, &str)]); 26] = [
+pub const POOL: [(&str, &str, &str, &[(&str, &str)]); 30] = [
     ("add-comm", "(add ?a ?b)", "(add ?b ?a)", &[]),
     ("add-assoc", "(add (add ?a ?b) ?c)", "(add ?a (add ?b ?c))", &[]),
     ("mul-comm", "(mul ?a ?b)", "(mul ?b ?a)", &[]),
@@ -37,6 +37,10 @@ pub const POOL: [(&str, &str, &str, &[(&str, &str)]); 26] = [
     ("h-def", "(h ?a)", "(add (mul 3 ?a) 2)", &[]),
     ("sum2-factor", "(sum $o (sum $i (mul ?c ?a)))", "(sum $i (mul ?c (sum $o ?a)))", &[("o", "c")]),
     ("sum2-factor-b", "(sum $i (sum $o (mul ?c ?a)))", "(sum $o (mul ?c (sum $i ?a)))", &[("i", "c")]),
+    ("sum-infactor", "(mul ?c (sum $x ?a))", "(sum $x (mul ?c ?a))", &[]),
+    ("sum-infactor-f2", "(mul ?c (sum $f2 ?a))", "(sum $f2 (mul ?c ?a))", &[]),
+    ("sum-infactor-f3", "(mul ?c (sum $f3 ?a))", "(sum $f3 (mul ?c ?a))", &[]),
+    ("sum-infactor-f4", "(mul ?c (sum $f4 ?a))", "(sum $f4 (mul ?c ?a))", &[]),
 ];
 
 pub const BAD_POOL: [(&str, &str, &str, &[(&str, &str)]); 2] = [
@@ -297,6 +301,28 @@ pub fn run(ctx: &mut Ctx) {
                 start = vec![t];
                 force.push("let-subst");
             }
+        }
+        if !bad && force.is_empty() && rng.chance(1, 6) {
+            // a factor with a free slot next to a binder; rules whose binder is spelled like the library's own fresh slots
+            // (`$f2`..`$f4`, names that class parameters really carry): moving the factor under the binder must not capture
+            let var = |c: u32| ATerm { v: 2, fields: vec![CField::Slot(c)], children: vec![] };
+            let bin = |v: usize, a: ATerm, b: ATerm| ATerm { v, fields: vec![CField::App, CField::App], children: vec![a, b] };
+            let sum = |x: u32, b: ATerm| ATerm { v: 6, fields: vec![CField::Bind(x, Box::new(CField::App))], children: vec![b] };
+            let one = ATerm { v: 15, fields: vec![CField::Lit("1".into())], children: vec![] };
+            let (y, w, j) = (2u32, 6u32, 10u32);
+            let factor = match rng.below(3) {
+                0 => var(y),
+                1 => bin(4, var(y), one.clone()),
+                _ => bin(5, var(y), var(w)),
+            };
+            let body = match rng.below(3) {
+                0 => var(j),
+                1 => bin(4, var(j), one),
+                _ => bin(5, var(j), var(y)),
+            };
+            let t = bin(5, factor, sum(j, body));
+            start = if rng.chance(1, 2) { vec![t] } else { vec![var(w), t] };
+            force.extend(["sum-infactor-f2", "sum-infactor-f3", "sum-infactor-f4", "sum-infactor"]);
         }
         let n = if bad { BAD_POOL.len() } else { POOL.len() };
         let k = rng.range(2, 9.min(n));
